@@ -32,10 +32,19 @@ impl<'a> Bpb<'a> {
 
         let root_dir_blocks =
             BlockCount::from_bytes(u32::from(bpb.root_entries_count()) * OnDiskDirEntry::LEN_U32).0;
-        let non_data_blocks = u32::from(bpb.reserved_block_count())
-            + (u32::from(bpb.num_fats()) * bpb.fat_size())
-            + root_dir_blocks;
-        let data_blocks = bpb.total_blocks() - non_data_blocks;
+        // None of these fields can be trusted: no unchecked arithmetic here.
+        let non_data_blocks = u32::from(bpb.num_fats())
+            .checked_mul(bpb.fat_size())
+            .and_then(|fat_blocks| fat_blocks.checked_add(u32::from(bpb.reserved_block_count())))
+            .and_then(|blocks| blocks.checked_add(root_dir_blocks))
+            .ok_or("Bad BPB: FATs do not fit")?;
+        let data_blocks = bpb
+            .total_blocks()
+            .checked_sub(non_data_blocks)
+            .ok_or("Bad BPB: volume smaller than its FATs")?;
+        if bpb.blocks_per_cluster() == 0 {
+            return Err("Bad BPB: zero blocks per cluster");
+        }
         bpb.cluster_count = data_blocks / u32::from(bpb.blocks_per_cluster());
         if bpb.cluster_count < 4085 {
             return Err("FAT12 is unsupported");
